@@ -75,6 +75,19 @@ struct Tgt {
     whole: Option<fn(&Meta) -> Option<String>>,
 }
 
+/// An expression value as tokens plus the kind of expression it is: two values that print alike
+/// but are different expressions (`-1` as one negative literal, `-1` as a negation) are not equal.
+fn expr_tk(e: &Expr) -> String {
+    let d = format!("{:?}", strip_groups(e));
+    let kind = d.split(|c: char| !c.is_alphanumeric() && c != ':').next().unwrap_or("").to_string();
+    format!("{} as {kind}", canon_of(e))
+}
+
+/// the expression an expression parser reads from the same text: the reference for `expr_tk`
+fn expr_ref<T: quote::ToTokens>(t: &T) -> Option<String> {
+    syn::parse_str::<Expr>(&quote::ToTokens::to_token_stream(t).to_string()).ok().map(|r| format!("{} as {}", canon_of(t), expr_tk(&r).rsplit(" as ").next().unwrap_or("")))
+}
+
 fn lit_of(e: &Expr) -> Option<Lit> {
     match strip_groups(e) {
         Expr::Lit(l) => Some(l.lit.clone()),
@@ -247,12 +260,12 @@ fn targets() -> Vec<Tgt> {
         },
         Tgt {
             name: "Expr",
-            conv: |m| <syn::Expr as FromMeta>::from_meta(m).map(|v| v.tk()),
+            conv: |m| <syn::Expr as FromMeta>::from_meta(m).map(|v| expr_tk(&v)),
             bare: |e| match e {
                 Expr::Lit(l) if matches!(l.lit, Lit::Str(_)) => None,
-                _ => Some(canon_of(e)),
+                _ => expr_ref(e),
             },
-            quoted: Some(q::<syn::Expr>),
+            quoted: Some(|s| syn::parse_str::<Expr>(s).ok().map(|v| expr_tk(&v))),
             list: None,
             word_ok: false,
             whole: None,
@@ -414,19 +427,19 @@ fn targets() -> Vec<Tgt> {
         },
         Tgt {
             name: "parse_expr::preserve_str_literal",
-            conv: |m| parse_expr::preserve_str_literal(m).map(|v| v.tk()),
+            conv: |m| parse_expr::preserve_str_literal(m).map(|v| expr_tk(&v)),
             bare: |_| None,
             quoted: None,
             list: None,
             word_ok: false,
             whole: Some(|m| match m {
-                Meta::NameValue(nv) => Some(canon_of(&nv.value)),
+                Meta::NameValue(nv) => expr_ref(&nv.value),
                 _ => None,
             }),
         },
         Tgt {
             name: "parse_expr::parse_str_literal",
-            conv: |m| parse_expr::parse_str_literal(m).map(|v| v.tk()),
+            conv: |m| parse_expr::parse_str_literal(m).map(|v| expr_tk(&v)),
             bare: |_| None,
             quoted: None,
             list: None,
@@ -435,10 +448,10 @@ fn targets() -> Vec<Tgt> {
                 Meta::NameValue(nv) => match strip_groups(&nv.value) {
                     // the helpers differ only on string literals: every other value is kept as it is
                     Expr::Lit(l) if matches!(l.lit, Lit::Str(_)) => match &l.lit {
-                        Lit::Str(s) => q::<syn::Expr>(&s.value()),
+                        Lit::Str(s) => syn::parse_str::<Expr>(&s.value()).ok().map(|v| expr_tk(&v)),
                         _ => None,
                     },
-                    _ => Some(canon_of(&nv.value)),
+                    _ => expr_ref(&nv.value),
                 },
                 _ => None,
             }),
@@ -536,6 +549,26 @@ fn fragment(rng: &mut Rng) -> (String, &'static str) {
     }
 }
 
+/// `name = value` with the value's tokens inside `depth` invisible groups (token spans kept, each
+/// group spanning what it holds)
+fn group_value_tokens(text: &str, depth: usize) -> Option<proc_macro2::TokenStream> {
+    use proc_macro2::{Delimiter, Group, TokenStream, TokenTree};
+    let toks: Vec<TokenTree> = text.parse::<TokenStream>().ok()?.into_iter().collect();
+    let eq = toks.iter().position(|t| matches!(t, TokenTree::Punct(p) if p.as_char() == '='))?;
+    let mut value: Vec<TokenTree> = toks[eq + 1..].to_vec();
+    if value.is_empty() {
+        return None;
+    }
+    for _ in 0..depth {
+        let span = value.first().unwrap().span().join(value.last().unwrap().span()).unwrap_or_else(|| value.last().unwrap().span());
+        let mut g = Group::new(Delimiter::None, value.into_iter().collect());
+        g.set_span(span);
+        value = vec![TokenTree::Group(g)];
+    }
+    Some(toks[..=eq].iter().cloned().chain(value).collect())
+}
+
+#[allow(dead_code)]
 fn wrap_group(e: Expr) -> Expr {
     let sp = e.span();
     Expr::Group(syn::ExprGroup {
@@ -555,16 +588,16 @@ struct Prepared {
 fn prepare(frag: &str, rng: &mut Rng) -> Vec<Prepared> {
     let mut out = vec![];
     let mut push = |text: String, spelling: &'static str, group: bool| {
-        if let Ok(mut m) = syn::parse_str::<Meta>(&text) {
-            if group {
-                if let Meta::NameValue(nv) = &mut m {
-                    nv.value = wrap_group(nv.value.clone());
-                    if spelling.ends_with("2") {
-                        nv.value = wrap_group(nv.value.clone());
-                    }
-                } else {
-                    return;
-                }
+        // a grouped spelling is made of tokens, as a `macro_rules!` fragment is: the value's tokens inside
+        // an invisible group (twice for "...2"), then parsed like any attribute
+        let parsed = if group {
+            group_value_tokens(&text, if spelling.ends_with('2') { 2 } else { 1 }).and_then(|ts| syn::parse2::<Meta>(ts).ok())
+        } else {
+            syn::parse_str::<Meta>(&text).ok()
+        };
+        if let Some(m) = parsed {
+            if group && !matches!(m, Meta::NameValue(_)) {
+                return;
             }
             out.push(Prepared {
                 meta: m,
